@@ -511,6 +511,12 @@ class Analysis:
                 return ("A", ("adt", CF, 0), (r_[2][0],)) if r_[1][2] == 0 else ("A", ("adt", CF, 1), (("A", ("adt", RES, 1), (r_[2][0],)),))
         if res.startswith("<core::option::Option<T> as core::ops::FromResidual<core::option::Option<core::convert::Infallible>>>::from_residual"):
             return ("A", ("adt", OPT, 0), ())
+        if res.startswith("<core::result::Result<T, F> as core::ops::FromResidual<core::result::Result<core::convert::Infallible, E>>>::from_residual") and args:
+            r_ = adt(args[0], RES)
+            ra = [x for x in (cs.term["f"].get("res_args") or []) if x.get("k") != "region"]
+            # Err(e) -> Err(From::from(e)); the identity conversion when the two error types are the same type
+            if r_ is not None and r_[1][2] == 1 and len(ra) >= 3 and tstr(ra[1]) == tstr(ra[2]):
+                return ("A", ("adt", RES, 1), (r_[2][0],))
 
         if fn in ("core::slice::<impl [T]>::len",):
             p = ptr()
@@ -809,7 +815,22 @@ class Analysis:
         if not up:
             st.mem[(ub, ("__epoch__",))] = ("V", "epoch", site)
         else:
-            st.mem[(ub, up)] = ("V", "havoc", site, (ub, up))
+            # typed opaque: an integer field stays an integer (a fresh non-negative atom), so later comparisons are still terms
+            st.mem[(ub, up)] = self.init_value(("havoc", site, (ub, up)), self.cell_ty(ub, up), "havoc") if is_int_ty(self.cell_ty(ub, up)) else ("V", "havoc", site, (ub, up))
+
+    def cell_ty(self, base, path):
+        """Declared type of a field cell of a local (None if unknown)."""
+        if base[0] != "local":
+            return None
+        ty = self.local_ty(base[1])
+        for f in path:
+            if not isinstance(f, int) or ty is None or ty.get("k") != "adt":
+                return None
+            adt = self.db.adts.get(ty["def"])
+            if adt is None or f >= len(adt["fields"]):
+                return None
+            ty = adt["fields"][f].get("ty")
+        return ty
 
     # ---- transfer --------------------------------------------------------------------------
     def exec_block(self, bb, st, record):
@@ -1169,6 +1190,15 @@ class Analysis:
     def run(self):
         """Worklist fixpoint.  Out-states are kept per CFG edge and a block's in-state is recomputed as the join
         over its incoming edges, so single-predecessor blocks receive their predecessor's state exactly."""
+        from . import poly as _poly
+        _saved_split = _poly.SPLIT_DEPTH
+        _poly.SPLIT_DEPTH = 0  # joins only need the cheap prover; rules prove their goals afterwards with case splits
+        try:
+            return self._run()
+        finally:
+            _poly.SPLIT_DEPTH = _saved_split
+
+    def _run(self):
         entry = self.entry_state()
         self.block_in = {0: entry}
         edge_out = {}  # (pred, idx) -> (succ, state)
